@@ -402,3 +402,45 @@ def lazy_flush(ctx, P, rule="STATS-LAZY", floor=2):
             k += 1
     ctx.floor(rule, floor)
     return n
+
+
+def carry_sign(ctx, P, rule="STATS-CARRY", floor=1):
+    """A = W - M; ...; R = part of M that belongs to the NEXT window; A ?= R; M += R   =>   the correction of A is `+= R`."""
+    ctx.rule(rule, "window accounting with a carried-over span: where a quantity A is first computed as `<width> - M` and a part R of "
+                   "M is then handed over to the next window (`M = 0; … M += R`), A is corrected by ADDING R back (`A += R`): "
+                   "subtracting it removes the carried span from the window a second time (pair-coalescence statistics: "
+                   "`window_span`, `missing_span`, an edgeless tree that straddles a window boundary)")
+    tu = P.tus["trees"]
+    n = 0
+    for fn in tu.funcs.values():
+        if fn.body is None:
+            continue
+        F = None
+        for x in walk(fn.body):
+            # A = <...> - M
+            if not (x.k == "BinaryOperator" and x.op == "="):
+                continue
+            r = strip(x.kids[1])
+            if r is None or r.k != "BinaryOperator" or r.op != "-":
+                continue
+            A, M = estr(x.kids[0]), estr(r.kids[1])
+            if not re.fullmatch(r"\w+", A) or not re.fullmatch(r"\w+", M):
+                continue
+            # later in the same function: M += R  and  A (+|-)= R  for the same R, after a reset M = 0
+            resets = [y for y in walk(fn.body) if y.k == "BinaryOperator" and y.op == "=" and estr(y.kids[0]) == M and estr(y.kids[1]) in ("0.0", "0") and y.b > x.b]
+            if not resets:
+                continue
+            carries = [y for y in walk(fn.body) if y.k == "CompoundAssignOperator" and y.op == "+=" and estr(y.kids[0]) == M and y.b > resets[0].b]
+            for cy in carries:
+                R = estr(cy.kids[1])
+                corr = [y for y in walk(fn.body) if y.k == "CompoundAssignOperator" and y.op in ("+=", "-=") and estr(y.kids[0]) == A
+                        and estr(y.kids[1]) == R and x.b < y.b < cy.b + 400]
+                for y in corr:
+                    n += 1
+                    ok = y.op == "+="
+                    ctx.ob(rule, "%s|%s|%s" % (fn.name, A, R), ok, tu.loc(y),
+                           "`%s = … - %s` is corrected by `%s %s %s` for the part of %s carried to the next window" % (A, M, A, y.op, R, M) if ok else
+                           "`%s = … - %s` already excludes `%s` (it is part of %s); `%s -= %s` removes it a second time instead of adding it back"
+                           % (A, M, R, M, A, R))
+    ctx.floor(rule, floor)
+    return n
